@@ -1,173 +1,225 @@
 """Per-property manifest texts (tools/gen_manifest.py turns them into MANIFEST.json;
-a property is only claimed when sa/props/<id>.py exists)."""
+a property is only claimed when sa/props/<id>.py exists).  The rule ids refer to
+DESIGN.md section 2 (what each clause decides) and section 6 (generated table of
+rules and instance counts)."""
 
 _T = "static analysis (ast, no execution): "
 _TRUST = "Trusted: CPython ast and the oracle tables under sa/. "
+_CANON = (" Every function is put into a canonical form first (extracted helpers expanded, guard clauses nested, comprehension / any / next / "
+          "reduce idioms turned into loops, constants propagated), so that the verdict does not depend on how the code is spelled; a construct "
+          "that is found but cannot be evaluated makes the run end in ANALYSIS-ERROR (exit 2), never in a verdict.")
 
 CHECKS = {
     "C01": {
-        "text": "Static rule check of the structural clauses that are necessary for source/IC10 equivalence: comparison tables and "
-                "their involution, polarity of every branch emitted for if/while under both values of the negation flag, aliasing "
-                "only for single-assignment values, pruning only under proven constness/unusedness, loop lowerings set their "
-                "continue/break labels and continue reaches the step code, range direction, operator->opcode rows, operand origin "
-                "and order at non-commutative sites. Decides these clauses for every program; does not decide trace equivalence.",
-        "design_ref": "DESIGN.md section 2 and 6, C01 (R01.a-k)",
-        "note": _TRUST + "Not decided: evaluation order of stitched fragments, used/const inference as a whole, the select-chain / "
-                "jump-table lowering, anything depending on program shape.",
-        "technique": _T + "emission-site extraction, value-set evaluation of opcode expressions under flag case splits, guard/dominator queries on a per-function CFG, table extraction",
+        "text": "Static rule check of the structural clauses that are necessary for source/IC10 equivalence, for every program: comparison "
+                "tables and their involution; polarity of every branch emitted for if/while under both values of the negation flag, the "
+                "constant-test arms decided by evaluating the flag computation over the booleans; a variable shares another value's "
+                "register only when neither is assigned again; pruning only under a proven reason; loop lowerings set their continue/break "
+                "labels, continue reaches the step code, the back jump is emitted with the loop; range direction; operator->opcode rows; "
+                "operand origin and order at non-commutative sites; constant-list indexing; folding = emitted opcode semantics; return jumps; "
+                "argument evaluation before stores; pass-level stacks balanced; every child gathered once; loop-widened lifetimes. Does not "
+                "decide trace equivalence.",
+        "design_ref": "DESIGN.md section 2 and 6, C01 (R01.a-r)",
+        "note": _TRUST + "Not decided: evaluation order of stitched fragments, used/const inference as a whole, anything that depends on "
+                "program shape. Six known findings (pinned by reference files or design-level).",
+        "technique": _T + "emission-site extraction, value-set evaluation of opcode expressions under flag case splits, boolean abstract "
+                     "execution (sa/boolflow.py), guard queries on a per-function CFG, reaching definitions, table extraction." + _CANON,
     },
     "C02": {
-        "text": "Static rule check: directive scan dominates every option read; layout-only options and the output mode are read only "
-                "in the rendering layer; every inlining decision site reduces to the same predicate; both calling conventions have an "
-                "emission site for every role; the tail-call rewrite and the suppressed 'j ra' hang on the same flag. Structural "
-                "necessary conditions for option-independence, not the behavioural equivalence of 2^8 outputs.",
-        "design_ref": "DESIGN.md section 2, C02 (R02.a-e)",
-        "note": _TRUST + "Not decided: behavioural equivalence of outputs under different option vectors.",
-        "technique": _T + "option-read inventory over the call graph, boolean normalisation of inlining predicates, role coverage of emission sites under a flag case split",
+        "text": "Static rule check of what makes the options change size and layout only: the directive scan dominates every option read; "
+                "layout-only options and the output mode are read only in the rendering layer / spelling functions; every inlining "
+                "decision is one predicate; both calling conventions have every role; the tail-call rewrite and the dropped 'j ra' hang "
+                "on one flag, guarded by 'neither function inlined'; the ra logic finds a function's own exits whatever is spliced in; "
+                "NO program is rejected because of an option (no raise is control-dependent on an option field); tail calls leave the "
+                "stack pointer alone; 'compact' does not change what folds; remove_labels rewrites label operands only; inlining shares "
+                "a parameter only when nothing is reassigned. Not the behavioural equivalence of the 2^8 outputs.",
+        "design_ref": "DESIGN.md section 2 and 6, C02 (R02.a-l)",
+        "note": _TRUST + "Not decided: behavioural equivalence of outputs under different option vectors. Two known findings (tail call "
+                "with saved ra; inlined parameter sharing a reassigned global).",
+        "technique": _T + "option-read inventory on canonical functions, truth tables of inlining predicates, guard sets of every raise, "
+                     "regex oracle for the label substitution, rules shared with C01/C03/C05/C06/C07." + _CANON,
     },
     "C03": {
-        "text": "Static rule check of every row of the operator tables (key operator = evaluator operator, opcode class = evaluator "
-                "class, bitwise rows evaluate on integers), of the math-function table (name is a math function of that arity and an "
-                "intrinsic of the same name), of the named constants, of the operand coercion, and of the guard under which a "
-                "constant is propagated through a variable. Decides table agreement for all rows, not numeric agreement on all doubles.",
-        "design_ref": "DESIGN.md section 2 and 6, C03 (R03.a-j)",
+        "text": "Static rule check of every row of the operator tables (key operator = evaluator operator on (first, second); evaluator "
+                "semantics = opcode semantics, library functions through a table of known-equal / known-different ones; table factories "
+                "beta-reduced), of the math-function table, the named constants, the operand coercion (every return a double or the "
+                "number of a hash/string constant; every symbolic spelling of the output mode understood and cut exactly), the guard "
+                "under which constants travel through variables, the call sites of the evaluators and the exact-integer rule of "
+                "IC10Operand. Table agreement for all rows, not numeric agreement on all doubles.",
+        "design_ref": "DESIGN.md section 2 and 6, C03 (R03.a-m)",
         "note": _TRUST + "Not decided: IEEE corner cases (NaN, overflow, negative shift/modulus) of particular operands.",
-        "technique": _T + "table extraction and per-row comparison of the evaluator lambda's AST with an operator-semantics oracle",
+        "technique": _T + "table extraction and per-row comparison of the evaluator lambda's AST with an operator-semantics oracle; "
+                     "producer/consumer agreement of symbolic spellings between types.py and utils.py." + _CANON,
     },
     "C04": {
-        "text": "Static rule check of the allocator: register universe is r0..r(K-1), K<=16; the index into the free list is dominated "
-                "by a raising bound test; lifetimes are half-open and the release test implies disjointness; loop widening is applied "
-                "to every node entering min/max; module-level values of every module get the unbounded lifetime; a scope's available "
-                "set subtracts all callers' blocked sets, transitively, and scopes are ordered after their callers; colouring sweeps "
-                "in order of lifetime start. Necessary conditions; soundness of line-interval lifetimes for a given program is not decided.",
-        "design_ref": "DESIGN.md section 2, C04 (R04.a-g)",
+        "text": "Static rule check of the allocator: register universe r0..r(K-1), K<=16; raising bound test on the free list; half-open "
+                "lifetimes, a temporary spans its whole statement, the release test implies disjointness; loop widening over all accesses "
+                "with an outer-loop search; module-level values of every module (all writers examined) are unbounded; the callers of a "
+                "function are guaranteed to contain its call sites and all module scopes, module scopes form a chain (abstract "
+                "interpretation of called_from); blocked sets transitive and recorded for every scope; callers ordered first; sweep order; "
+                "names that stand for another value's register hand their accesses to the value at the end of the chain; device-id "
+                "registers and inlined result registers are kept. Necessary conditions; liveness of emitted code for a given program is "
+                "not decided.",
+        "design_ref": "DESIGN.md section 2 and 6, C04 (R04.a-j)",
         "note": _TRUST + "Not decided: whether line intervals over-approximate liveness of emitted code (needs liveness analysis of outputs).",
-        "technique": _T + "shape rules on register_assignment.py and IC10Register.lifetime with linear-normal-form implication and a taint rule (sanitizer get_loop_ancestor)",
+        "technique": _T + "abstract interpretation of the caller sets (sa/callersets.py), data-flow rules on register_assignment.py and "
+                     "IC10Register.lifetime, linear-normal-form implication, guard-set comparison." + _CANON,
     },
     "C05": {
-        "text": "Static rule check: the substitution pattern of remove_labels delimits whole operand tokens with respect to the label "
-                "alphabet derived from the repository's own label constructors; per handler every label used as operand is defined "
-                "exactly once; all loop lowerings set continue/break labels; all constructions of a function label agree on the "
-                "qualified name and transformation; get_label always advances its counter. Decides these clauses, not the line-by-line "
-                "equality of both label modes.",
-        "design_ref": "DESIGN.md section 2 and 6, C05 (R05.a-f)",
+        "text": "Static rule check: the substitution pattern of remove_labels, evaluated as a regex with its replacement discipline against "
+                "the label alphabet of the repository's own label constructors, matches whole labels only and never inside quoted text; "
+                "every label is substituted in every line; label -> index of the following instruction; no line is inserted or removed "
+                "afterwards; per handler every label operand has one definition; loop labels; function labels built from the qualified "
+                "name everywhere; get_label always advances; pass-level stacks balanced; the ra logic keeps the last end label. Not the "
+                "line-by-line equality of both label modes.",
+        "design_ref": "DESIGN.md section 2 and 6, C05 (R05.a-j)",
         "note": _TRUST + "Not decided: collisions of user identifiers with opcodes/registers; whole-output relation between label modes.",
-        "technique": _T + "regex AST analysis (re._parser) against the extracted label alphabet, def/ref pairing of label variables over emission sites",
+        "technique": _T + "regex oracle (re on probe lines built from the extracted alphabet, re._parser for the evidence), def/ref pairing "
+                     "of label variables over emission sites, CFG reachability after the numbering step." + _CANON,
     },
     "C06": {
-        "text": "Static rule check: caller and callee agree on argument slot/ordering and result slot in both conventions; every branch "
-                "that inserts 'push ra' inserts 'pop ra'; the end label searched by the ra logic is the one the generator defines; "
-                "every exit form of compile_function is recognised by the needs-ra predicate; nested subroutine emitters save ra; the "
-                "restore sits after the end label. Necessary structure of the convention, not run-time stack balance.",
-        "design_ref": "DESIGN.md section 2 and 6, C06 (R06.a-i)",
-        "note": _TRUST + "Not decided: run-time stack-pointer balance along all paths.",
-        "technique": _T + "emission-site pairing across caller/callee handlers under the convention flag, linear normal form of slot expressions",
+        "text": "Static rule check: caller and callee agree on argument slot/order and result slot in both conventions (linear forms over "
+                "the loop index); every argument stored / parameter fetched unconditionally; wrong argument counts rejected under every "
+                "option vector; push ra <=> pop ra per branch; every exit form recognised by the needs-ra predicate, which reads the "
+                "emitted list; subroutine lowerings save ra; restore after the LAST matching end label; inserts from the highest index "
+                "down; 'pop ra' in front of the pushed value at every exit point; arguments before the jal in the call's own fragment; "
+                "return jumps; tail jumps only when nothing is pending after the call. Necessary structure, not run-time stack balance.",
+        "design_ref": "DESIGN.md section 2 and 6, C06 (R06.a-n)",
+        "note": _TRUST + "Not decided: run-time stack-pointer balance along all paths. Two known findings (tail call with saved ra, "
+                "list-for body subroutine).",
+        "technique": _T + "emission-site pairing across caller/callee handlers under the convention flag, linear normal form of slot "
+                     "expressions, abstract instruction fed through the needs-ra predicate, data flow of insert positions." + _CANON,
     },
     "C07": {
-        "text": "Static rule check of the gather pass and of compile_function: the main region is emitted first; a non-fall-through "
-                "transfer must separate it from the first function region (the tree has none: known finding, pinned by the reference "
-                "files); every emitted function region is terminated after its end label, also under tail-call optimisation; region "
-                "emitted iff not inlined (one predicate); tail jumps only between non-inlined functions.",
-        "design_ref": "DESIGN.md section 2 and 6, C07 (R07.a-e)",
-        "note": _TRUST + "Not decided: whether a given program's main code terminates.",
-        "technique": _T + "ordering/must-pass-through rule on the gather loop with the ISA table saying which opcodes fall through",
+        "text": "Static rule check of the gather pass and of compile_function: one model of GatherCode.run turns every statement that adds "
+                "lines into a formula over (main, called, constexpr) and evaluates it for all assignments - main region first, emitted iff "
+                "main or called, never constexpr; a non-fall-through transfer after the main region (known finding: the tree has none); "
+                "every function region terminated after its end label also under tail calls; region emitted iff not inlined; tail jumps "
+                "only between real functions; early returns target their own end label; emission target restored after nested "
+                "definitions; functions known in visiting order; loops closed by their back jump; ra never confused with a pushed value.",
+        "design_ref": "DESIGN.md section 2 and 6, C07 (R07.a-j)",
+        "note": _TRUST + "Not decided: whether a given program's main code terminates. Known findings: missing terminator after main "
+                "(pinned by reference files), tail call with saved ra.",
+        "technique": _T + "formula model of the emission statements, ISA table saying which opcodes fall through, rules shared with "
+                     "C01/C02/C05/C06." + _CANON,
     },
     "C08": {
-        "text": "Static rule check: calc_hash is CRC-32 of the UTF-8 bytes folded to signed 32 bit; compute_string packs big-endian in "
-                "forward order; number and symbolic spelling derive from one unmodified variable; _apply_output_mode returns the "
-                "spelling / the number by mode; format_enum prints name/value of one object; the mode is read only by the spelling "
-                "functions; enum numbers are unique. Decides token-level agreement per spelling function, not whole-output equality.",
-        "design_ref": "DESIGN.md section 2 and 6, C08 (R08.a-h)",
-        "note": _TRUST + "Not decided: agreement of enum numbers with the game's tables (not available offline).",
-        "technique": _T + "idiom recognition with reaching definitions on the spelling functions, reader inventory of the mode variable, enum table extraction",
+        "text": "Static rule check: calc_hash is CRC-32 of the UTF-8 bytes folded to signed 32 bit (a listed idiom, or the closed integer "
+                "arithmetic evaluated on the boundary values of an unsigned 32-bit number); compute_string packs big-endian in forward "
+                "order; number and spelling derive from one string; _apply_output_mode returns spelling / number by mode over all return "
+                "paths; compute_hash removes exactly the wrapper it tested for; format_enum prints name/value of one object, prefix "
+                "dropped by type; mode read only by the spelling functions; enum numbers unique; hex only below 2**53; CRC computed in one "
+                "place; folding independent of the spelling and aware of every symbolic spelling. Token-level agreement per spelling "
+                "function, not whole-output equality.",
+        "design_ref": "DESIGN.md section 2 and 6, C08 (R08.a-j)",
+        "note": _TRUST + "Not decided: agreement of enum numbers with the game's tables (not available offline): seeded change C08-1, a "
+                "transposition of two numbers, is not caught.",
+        "technique": _T + "idiom recognition plus closed-expression evaluation on witnesses, return-path value sets, reader inventory of "
+                     "the mode variable, enum table extraction." + _CANON,
     },
     "C09": {
-        "text": "Static rule check over every construct through which text can reach the output: all emission sites and operator-table "
-                "rows are resolved to finite opcode sets and compared with an IC10 signature oracle (opcode exists, operand count, "
-                "output register); bool/None spellings are excluded by abstract dispatch of the operand class; the version-note bound "
-                "and the float precisions are decided on the source. Necessary structural clauses for every program, not the read-back "
-                "of particular literals.",
-        "design_ref": "DESIGN.md section 2, C09 (R09.a-d)",
+        "text": "Static rule check over every construct through which text can reach the output: all emission sites, opcode rewrites and "
+                "operator-table rows are resolved to finite opcode sets and compared with an IC10 signature oracle (opcode exists, "
+                "operand count, output register; a destination is cleared only with an opcode rewrite); bool/None/empty spellings "
+                "excluded; version-note bound; >= 16 significant digits at every float format, also for floats carried by register "
+                "objects; operand kinds at access sites; register numbers written into every collected register object.",
+        "design_ref": "DESIGN.md section 2 and 6, C09 (R09.a-f)",
         "note": _TRUST + "sa/isa.py is written from the game's reference and cross-checked against webapp/src/ic10.json on every run. "
-                "Not decided: device-operand kinds, exact float read-back, text produced by a user's @emit_code function.",
-        "technique": _T + "emission-site extraction + finite value-set evaluation of opcode expressions against an ISA table",
+                "Not decided: exact float read-back, text produced by a user's @emit_code function. Three known findings ('~' -> 'neg').",
+        "technique": _T + "emission-site extraction + finite value-set evaluation of opcode expressions (dict comprehensions, table "
+                     "factories) against an ISA table." + _CANON,
     },
     "C10": {
-        "text": "Static rule check: effect analysis of compile_code (every call outside a catch-all try is in a proven-total set on the "
-                "stated input domain), Compiler.compile is one try ending in a catch-all that returns an error dictionary; typestate "
-                "of the constexpr child process on a CFG with exception edges (reaped or killed+reaped on every exit, bounded wait); "
-                "a rejecting pass precedes code generation; audited while-loop inventory. Not wall-clock bounds.",
-        "design_ref": "DESIGN.md section 2, C10 (R10.a-e)",
-        "note": _TRUST + "Assumes the subprocess transport (no pyodide 'js' module). Not decided: timing, positions inside the text, termination in general.",
-        "technique": _T + "exception-containment effect analysis and child-process typestate on a hand-built CFG with exception edges",
+        "text": "Static rule check: effect analysis of compile_code (every call outside a catch-all try is total on the stated input "
+                "domain - string-function lemmas for the scanner, repository functions assumed total have their bodies checked); "
+                "Compiler.compile is one try ending in a catch-all whose handlers return error dictionaries, guard optional parts, do no "
+                "arithmetic on None positions and pass end positions on only after a range check; typestate of the constexpr child on a "
+                "CFG with exception edges, bounded wait; a rejecting pass; every while loop an audited worklist or a recognised "
+                "terminating walk; nothing cached across compilations holds an exception or node.",
+        "design_ref": "DESIGN.md section 2 and 6, C10 (R10.a-f)",
+        "note": _TRUST + "Assumes the subprocess transport (no pyodide 'js' module). Not decided: wall-clock bounds, termination in general.",
+        "technique": _T + "exception-containment effect analysis and child-process typestate on a hand-built CFG with exception edges; "
+                     "structural termination arguments for loops." + _CANON,
     },
     "C11": {
         "text": "Static rule check: inventory of every module-level binding written from the compile path with a per-binding obligation "
-                "(mode set per compile from options only, cache keyed by the executed text, hash set filled once from constants); "
-                "parameters options/src are never mutated; attribute stores on shared device singletons only on fresh copies or "
-                "audited sites; no in-place mutation of containers that came from parameters or cached constants.",
-        "design_ref": "DESIGN.md section 2, C11 (R11.a-d)",
+                "(mode per compile from options only, cache keyed by the executed text, hash table filled once and changed nowhere else); "
+                "no process-wide interpreter setting changed without restore; options/src never mutated; attribute stores on device "
+                "singletons only on fresh copies or audited sites; no in-place mutation of received containers; no order-dependent loop "
+                "over a set of names; what outlives a compilation carries nothing of it.",
+        "design_ref": "DESIGN.md section 2 and 6, C11 (R11.a-f)",
         "note": _TRUST + "Not decided: astroid's own caches; equality with a fresh process as a whole.",
-        "technique": _T + "global-write inventory over the call graph, alias/mutation analysis of parameters with reaching definitions",
+        "technique": _T + "global-write inventory over the call graph, alias/mutation analysis of parameters with reaching definitions." + _CANON,
     },
     "C12": {
         "text": "Static rule check: a constexpr source is registered only after the rejecting validation whose regex covers open/eval/exec "
-                "as whole words; constexpr functions emit no code; in the evaluation-script template (parsed as Python) HASH is bound "
-                "to calc_hash last, identity decorators precede user code and json writer/reader are partners; the cache key is the "
-                "script text.",
-        "design_ref": "DESIGN.md section 2, C12 (R12.a-d)",
+                "as whole words over the whole source; constexpr functions emit no code; the evaluation-script template (parsed as Python; "
+                "the script variable found by data flow from exec / Popen) binds HASH to calc_hash last, identity decorators first, "
+                "library functions only inside 'class <module>:', json writer/reader partners by data flow from communicate(); the text "
+                "is not formatted again; the cache key is the script text; returned containers are not mutated.",
+        "design_ref": "DESIGN.md section 2 and 6, C12 (R12.a-e)",
         "note": _TRUST + "Not decided: survival of arbitrary argument expressions through as_string().",
-        "technique": _T + "dominance on the registration path, regex AST analysis, parsing the f-string script template as Python",
+        "technique": _T + "dominance on the registration path, regex AST analysis, parsing the f-string script template as Python, data flow." + _CANON,
     },
     "C13": {
         "text": "Static rule check: function code is appended only for the main region or called functions and never for constexpr "
-                "functions; __name__ folds to '__main__' only for the main scope; every access to the per-compile symbol/structure "
-                "tables is keyed by the qualified scope name; module-level values of every module get the unbounded lifetime.",
-        "design_ref": "DESIGN.md section 2 and 6, C13 (R13.a-g)",
+                "functions (formula model); __name__ folds to '__main__' only for the main scope; every access to the per-compile tables "
+                "is keyed by the qualified scope name or a key drawn from the tables; module-level values of every module unbounded; "
+                "aliases renamed consistently; the module's name flows into every scope name; functions below all modules and modules in a "
+                "chain (abstract interpretation); qualified labels; the forwarding pass skips dead code; modules visited in import order.",
+        "design_ref": "DESIGN.md section 2 and 6, C13 (R13.a-i)",
         "note": _TRUST + "Not decided: equivalence with the hand-merged single file.",
-        "technique": _T + "guard queries at the emission loop and fold site, keyed-access inventory of the storage tables",
+        "technique": _T + "guard queries at the emission loop and fold site, keyed-access inventory of the storage tables, flow of the "
+                     "module name through get_scope_name, sa/callersets.py." + _CANON,
     },
     "C14": {
-        "text": "Static rule check of mod_daemon: stdout redirected before any other import, saved handle used at one reply site, no "
-                "other route to fd 1, every child process gets its own stdout; every path through process_input after the empty-line "
-                "return passes exactly one reply (definite assignment into the finally, catch-all handler); the loop leaves only on "
-                "EOF/EXIT.",
-        "design_ref": "DESIGN.md section 2, C14 (R14.a-c)",
+        "text": "Static rule check of mod_daemon: stdout redirected before any other import, saved handle used at one reply site, no other "
+                "route to fd 1, every child gets its own stdout; every path through process_input for a non-empty line passes exactly one "
+                "reply (also when the reply sits in a helper), the reply is base64(json) of an error object or compile_code's dictionary; "
+                "the loop leaves only on EOF (decided on the unstripped line) or EXIT; nothing outside the guarded region can raise.",
+        "design_ref": "DESIGN.md section 2 and 6, C14 (R14.a-c)",
         "note": _TRUST + "Not decided: behaviour under real pipes and signals; the C# client is read for context only.",
-        "technique": _T + "ownership rule for fd 1 plus exactly-one-reply path analysis on the CFG of process_input (finally copies, exception edges)",
+        "technique": _T + "ownership rule for fd 1 plus exactly-one-reply path analysis on the CFG of process_input (finally copies, "
+                     "exception edges), symbolic stage reading of the reply encoding." + _CANON,
     },
     "C15": {
-        "text": "Static rule check of the directive scanner: membership against the dataclass field set, '-'->'_' before the 'no_' test, "
-                "'#' guard on the stripped line of the main source, only the named attribute assigned with the polarity value, scan "
-                "before any option read, source order without break (last wins).",
-        "design_ref": "DESIGN.md section 2, C15 (R15.a-e)",
+        "text": "Static rule check of the directive scanner: membership against the dataclass field set for the very value that is applied; "
+                "'-'->'_' before the 'no_' test and exactly the prefix removed; '#' guard on the stripped line of the main source; only "
+                "the named attribute of a private options object assigned, with the polarity value; scan before any option read; source "
+                "order without break (last wins) - for setattr in the loop, for a dictionary applied afterwards, and for options made "
+                "from the collected dictionary (directives merged in last, on every way to the compiler).",
+        "design_ref": "DESIGN.md section 2 and 6, C15 (R15.a-e)",
         "note": _TRUST + "Not decided: equality of the two compilation results as a whole.",
-        "technique": _T + "dominance/ordering rules on compile_code with the CompileOptions fields parsed from the dataclass",
+        "technique": _T + "symbolic path evaluation of the name/value expressions for both prefix polarities, dominance/ordering rules on "
+                     "compile_code, virtual application sites." + _CANON,
     },
     "C16": {
         "category": "exploration",
-        "text": "Exhaustive enumeration, from the source text, of all generated structure classes (hash = own signed CRC-32 of the "
-                "prefab name, singular/plural pairing, logic-type and slot properties, named slots -> numbered slots), all enum "
-                "classes (no duplicate numbers) and all intrinsic wrappers (own opcode, operands in order, output iff the ISA oracle "
-                "says so). The whole statement is decided for the tables of the working tree.",
-        "design_ref": "DESIGN.md section 2 and 6, C16 (R16.a-f)",
-        "note": _TRUST + "Own CRC-32 (sa/crc.py, cross-checked against zlib at start-up); sa/isa.py for instruction signatures.",
+        "text": "Exhaustive enumeration, from the source text, of all generated structure classes (hash = own signed CRC-32 of the prefab "
+                "name, singular/plural pairing, logic-type and slot properties, named slots -> numbered slots), all enum classes (no "
+                "duplicate numbers, auto() expanded) and all intrinsic wrappers (own opcode, operands in order, output iff the ISA oracle "
+                "says so; private helpers judged where they are expanded), the generic device properties, the printing function and the "
+                "wrapper removal of compute_hash. The whole statement is decided for the tables of the working tree.",
+        "design_ref": "DESIGN.md section 2 and 6, C16 (R16.a-g)",
+        "note": _TRUST + "Own CRC-32 (sa/crc.py, cross-checked against zlib at start-up); sa/isa.py for instruction signatures. Nine known "
+                "findings in the generated intrinsics (generator not in the repository).",
         "technique": _T + "exhaustive table extraction from the generated modules and cross-checking against an independent CRC-32 and the ISA oracle",
     },
     "C17": {
-        "text": "Static rule check: 'code', num_lines and num_bytes are computed from one final string by the stated formulas (linear "
-                "normal form len(s)+num_lines-1); every store into the allocation map is paired with an addition to the used set and "
-                "the returned set is the union over all scopes.",
-        "design_ref": "DESIGN.md section 2, C17 (R17.a-c)",
+        "text": "Static rule check: 'code', num_lines and num_bytes are computed from one final string by the stated formulas (every reaching "
+                "definition judged; linear normal form len(s) + max(num_lines - 1, 0)); every store into the allocation map is followed on "
+                "every path by an addition to a set that registers_by_scope keeps, and the returned set is the union over all scopes.",
+        "design_ref": "DESIGN.md section 2 and 6, C17 (R17.a-c)",
         "note": _TRUST + "Decides the formulas and the pairing, for every program.",
-        "technique": _T + "reaching definitions + linear normal form on the statistics expressions, store/add pairing on the allocator's CFG",
+        "technique": _T + "reaching definitions + linear normal form on the statistics expressions, store/add pairing on the allocator's CFG." + _CANON,
     },
     "C18": {
-        "text": "Static rule check: the stage lists of encode_data and decode_data are inverse partners of a library inverse-pair table "
-                "with matching codecs; the character substitutions are inverse maps and remove exactly + / =; padding is restored as "
-                "(-len) mod 4.",
-        "design_ref": "DESIGN.md section 2, C18 (R18.a-c)",
-        "note": _TRUST + "Trusts the standard library pairs to be inverse; not decided: json round-trip of exotic values (NaN, non-string keys).",
+        "text": "Static rule check: the stage lists of encode_data and decode_data (symbolic reading through helpers, conditionals, "
+                "translate tables) are inverse partners of a library inverse-pair table with matching codecs and no behaviour-changing "
+                "argument; nothing but codec stages touches the data; the character substitutions are inverse maps and remove exactly "
+                "+ / =; padding is restored as (-len) mod 4.",
+        "design_ref": "DESIGN.md section 2 and 6, C18 (R18.a-c)",
+        "note": _TRUST + "Trusts the standard library pairs to be inverse; not decided: json round-trip of exotic values (NaN, non-string keys, lone surrogates).",
         "technique": _T + "stage extraction from both functions and pairing against an inverse-pair table",
     },
 }
